@@ -296,19 +296,94 @@ def rules(rep, m):
         r4.ok()
     rep.sample({"rule": "R-C03-4", "c_frame_image": {k: (hex(v) if isinstance(v, int) else str(v)) for k, v in image.items()},
                 "base": base, "sp_offset": sp_off})
-    # base aligned: loop decrementing stack_base until % 16 == 0, and the cursor starts at stack_base
+    # base aligned: residue analysis modulo 16 of the pointers the frame is built from.  Recognised ways to establish
+    # residue 0: a loop `while (p % 16 != 0) p--/p++`, p & ~15, p - p % 16, (p + 15) & ~15; constants shift the
+    # residue; adding an unknown multiple of 8 loses it.
     cix = FuncCtx(m, ci)
-    aligned = False
-    for x in walk(ci.body):
-        if x["kind"] == "WhileStmt":
-            c = cix.canon(kids(x)[0])
-            if re.fullmatch(r"\(\(%s->stack_base %% 16\) != 0\)" % cp, c):
-                if any(y["kind"] == "UnaryOperator" and y.get("opcode") == "--" and
-                       cix.canon(kids(y)[0]) == cp + "->stack_base" for y in walk(kids(x)[1])):
-                    aligned = True
-    if not aligned or base != cp + "->stack_base":
-        rep.finding(r4, ci.name, "base:align", "the frame is not built from a stack base aligned down to 16 bytes "
-                    "(base expression '%s')" % base, where=m.rel(ci.where))
+
+    def residue(n, env):
+        n = strip(n, casts=True)
+        k = n["kind"]
+        if k == "IntegerLiteral":
+            return int(n["value"]) % 16
+        if k in ("MemberExpr", "DeclRefExpr"):
+            return env.get(cix.canon(n) if k == "MemberExpr" else "local:" + n["ref"]["id"])
+        if k == "UnaryExprOrTypeTraitExpr":
+            return None
+        if k == "BinaryOperator":
+            op = n["opcode"]
+            a, b = kids(n)[0], kids(n)[1]
+            if op == "&":
+                for x_, y_ in ((a, b), (b, a)):
+                    y0 = strip(y_, casts=True)
+                    # ~15 or -16 (possibly cast)
+                    if y0["kind"] == "UnaryOperator" and y0.get("opcode") in ("~", "-"):
+                        v_ = int_value(strip(kids(y0)[0], casts=True))
+                        if (y0["opcode"] == "~" and v_ is not None and (v_ + 1) % 16 == 0) or \
+                                (y0["opcode"] == "-" and v_ is not None and v_ % 16 == 0 and v_ > 0):
+                            return 0
+                return None
+            ra, rb = residue(a, env), residue(b, env)
+            if op == "-":
+                b0 = strip(b, casts=True)
+                if b0["kind"] == "BinaryOperator" and b0.get("opcode") == "%" and int_value(strip(kids(b0)[1], casts=True)) == 16 \
+                        and cix.canon(kids(b0)[0]) == cix.canon(a):
+                    return 0
+                return None if ra is None or rb is None else (ra - rb) % 16
+            if op == "+":
+                return None if ra is None or rb is None else (ra + rb) % 16
+            if op == "*":
+                va, vb = int_value(strip(a, casts=True)), int_value(strip(b, casts=True))
+                if (va is not None and va % 16 == 0) or (vb is not None and vb % 16 == 0):
+                    return 0
+                return None if ra is None or rb is None else (ra * rb) % 16
+        return None
+
+    env = {}
+    stk_init = None
+    found_cursor = False
+    for s_ in kids(ci.body):
+        if s_["kind"] == "WhileStmt":
+            c = strip(kids(s_)[0], casts=True)
+            if c["kind"] == "BinaryOperator" and c.get("opcode") == "!=" and int_value(strip(kids(c)[1], casts=True)) == 0:
+                mod = strip(kids(c)[0], casts=True)
+                if mod["kind"] == "BinaryOperator" and mod.get("opcode") == "%" and int_value(strip(kids(mod)[1], casts=True)) == 16:
+                    tgt = cix.canon(kids(mod)[0])
+                    steps = [y for y in walk(kids(s_)[1]) if y["kind"] == "UnaryOperator" and y.get("opcode") in ("--", "++")
+                             and cix.canon(kids(y)[0]) == tgt]
+                    if steps:
+                        env[tgt] = 0
+                        continue
+            for l, r_, k_, n_ in [(kids(y)[0], None, None, y) for y in walk(s_) if y["kind"] in ("BinaryOperator", "CompoundAssignOperator", "UnaryOperator")
+                                  and y.get("opcode") in ("=", "+=", "-=", "++", "--")]:
+                env.pop(cix.canon(l), None)
+        elif s_["kind"] == "BinaryOperator" and s_.get("opcode") == "=":
+            l = strip(kids(s_)[0], casts=True)
+            if l["kind"] == "MemberExpr":
+                env[cix.canon(l)] = residue(kids(s_)[1], env)
+            elif l["kind"] == "DeclRefExpr":
+                env["local:" + l["ref"]["id"]] = residue(kids(s_)[1], env)
+        elif s_["kind"] == "CompoundAssignOperator" and s_.get("opcode") in ("+=", "-="):
+            l = strip(kids(s_)[0], casts=True)
+            key = cix.canon(l) if l["kind"] == "MemberExpr" else "local:" + l["ref"]["id"] if l["kind"] == "DeclRefExpr" else None
+            d_ = residue(kids(s_)[1], env)
+            if key:
+                env[key] = None if env.get(key) is None or d_ is None else (env[key] + (d_ if s_["opcode"] == "+=" else -d_)) % 16
+        elif s_["kind"] == "DeclStmt":
+            for d in kids(s_):
+                if d["kind"] == "VarDecl" and kids(d):
+                    env["local:" + d["id"]] = residue(kids(d)[0], env)
+                    if "unsigned char *" in (d.get("type") or ""):
+                        stk_init = env["local:" + d["id"]]
+                        found_cursor = True
+            if found_cursor:
+                break
+    r4.instance("residue modulo 16 of the frame base when the cursor is set: %s (known residues: %s)" %
+                (stk_init, {k_: v_ for k_, v_ in env.items() if not k_.startswith("local:")}))
+    if stk_init != 0 or base != cp + "->stack_base":
+        rep.finding(r4, ci.name, "base:align", "the frame is not built from a stack base that is provably aligned to 16 bytes "
+                    "(base expression '%s', residue modulo 16: %s)" % (base, "unknown" if stk_init is None else stk_init),
+                    where=m.rel(ci.where))
         r4.fail()
     else:
         r4.ok()
